@@ -1,7 +1,7 @@
 """C11 - random-walk diffusion has the configured variance and no bias."""
 from contracts import tracker as T
 
-UNITS = [T.Diffuse(), T.DiffuseVert(), T.Update("")] + list(T.TRACKER_INIT_UNITS[:1]) + list(T.TRACKER_INIT_UNITS[3:4])
+UNITS = [T.Diffuse(), T.DiffuseVert(), T.Update("")] + list(T.TRACKER_INIT_UNITS[:1]) + list(T.TRACKER_INIT_UNITS[3:4]) + [T.HISTORY_UNITS[0], T.HISTORY_UNITS[2], T.HISTORY_UNITS[3]]
 LEMMAS = []
 NATIVE = [dict(name="sample moments of the real tracker's random walk", harness="diffusion_moments", kind="bounded")]
 LEVEL = "proof"
